@@ -170,6 +170,9 @@ limitations under the License.
 //!
 //! If you like this library and you want to say thanks, you can do it also by donating to bitcoin address `1P3gTnaTK9LKSYx2nETrKe2zjP4HMkdhvK`
 
+#[cfg(yata_verif)]
+pub mod verif;
+
 pub mod core;
 pub mod helpers;
 pub mod indicators;
